@@ -10,6 +10,7 @@ Variables lower upper : str -> str.
 Variable parse_tree : mapper -> tz -> res (option T * mapper * tz).
 Variable set_label : T -> option str -> T.
 Variable add_comments : T -> list str -> T.
+Variables va vk : bool.
 
 Hypothesis parse_tree_suf : forall m z ot m' z',
   parse_tree m z = Ok (ot, m', z') -> suf (z_toks z') (z_toks z).
@@ -139,7 +140,7 @@ Qed.
 
 (* select_tree is Python indexing twice, with the two emptiness tests of Tree.get *)
 Lemma select_tree_spec : forall (blocks : list (list T)) (c k : Z),
-  select_tree T set_label blocks c k =
+  select_tree T set_label vk blocks c k =
   match blocks with
   | [] => Err ValueErr
   | _ => match py_index blocks c with
@@ -147,7 +148,7 @@ Lemma select_tree_spec : forall (blocks : list (list T)) (c k : Z),
          | Some [] => Err ValueErr
          | Some tl => match py_index tl k with
                       | None => Err IndexErr
-                      | Some t => Ok (set_label t None)
+                      | Some t => Ok (got_label T set_label vk t)
                       end
          end
   end.
@@ -158,7 +159,7 @@ Qed.
 
 Lemma select_tree_nat : forall (blocks : list (list T)) (c k : nat) b t,
   nth_error blocks c = Some b -> nth_error b k = Some t ->
-  select_tree T set_label blocks (Z.of_nat c) (Z.of_nat k) = Ok (set_label t None).
+  select_tree T set_label vk blocks (Z.of_nat c) (Z.of_nat k) = Ok (got_label T set_label vk t).
 Proof.
   intros blocks c k b t Hc Hk. rewrite select_tree_spec.
   destruct blocks as [|b0 r]; [destruct c; discriminate|].
